@@ -31,7 +31,8 @@ EXPLANATION = (
     "constructor and the documented modifiers (histogram.fill / scale / set_nevents, graph.scale) store through self, and only "
     "the fields tabled for them: a query (get_nevents, __eq__, rows, ...) that leaves something behind in the object is a memo "
     "that fill(), which changes cells in place, cannot invalidate; (k) the six places that decide whether edges are multidimensional "
-    "ask the same test on edges[0] as the histogram constructor (init_bins is a tabled exception with its recorded text).")
+    "ask the same test on edges[0] as the histogram constructor (init_bins is a tabled exception with its recorded text)."    " Added after the eighth round of seeded changes and the second round of behaviour-preserving changes: ScaleTo rescales the structure from the flow or copy.deepcopy of it, never copy.copy (shared coordinate lists); the error columns of a coordinate are selected by comparing the parsed coordinate, never by startswith/in on the field name."
+)
 RULES = {
     "C12-a": "GUARD: division by a scale/count is dominated by a zero test that raises LenaValueError",
     "C12-b": "PURE: histogram.add leaves its operands alone and returns a new histogram over copied edges",
